@@ -828,11 +828,14 @@ package node
 
 // where: entries of the list the read started at are visible exactly when the predicate holds; everything else passes
 //@ pure xpredHolds(s *Selection, p *xpath.Path) bool
+// the same as a function of the expression text (two parses of one text decide alike)
+//@ pure exprHolds(s *Selection, expr string) bool
 //@ func (sel *Selection) XPredicate(p *xpath.Path) (bool, error)
 //@   trusted
 //@   assigns open, failed, nodeWrites, writesAfterFail, fieldWrites, fieldPostChecks, nonNavChecks
 //@   ensures nodeWrites == old(nodeWrites) && open == old(open)
 //@   ensures result1 == nil ==> result0 == xpredHolds(sel, p)
+//@   ensures result1 == nil ==> result0 == exprHolds(sel, exprOf(p))
 //@ func (w *Where) CheckListPostConstraints(r ListRequest, child *Selection, key []val.Value) (bool, bool, error)
 //@   mode int
 //@   property C16
@@ -851,9 +854,24 @@ package node
 //@   mode int
 //@   property C16
 //@   requires true
+//@   assigns open, failed, nodeWrites, writesAfterFail, fieldWrites, fieldPostChecks, nonNavChecks
 //@   ensures s == nil ==> result0 && result1 == nil
 //@   ensures s != nil && (dyn(m) != meta.HasWhen || whenOf(m) == nil) ==> result0 && result1 == nil
 //@   check [whenDecides] s != nil && dyn(m) == meta.HasWhen && whenOf(m) != nil && result1 == nil ==> result0 == xpredHolds(s, xp)
+//@   ensures [whenText] s != nil && dyn(m) == meta.HasWhen && whenOf(m) != nil && result1 == nil ==> result0 == exprHolds(s, whenOf(m).expr)
+//@   ensures nodeWrites == old(nodeWrites) && open == old(open)
+
+// the when-statement guards reads and writes alike, for leafs, containers and list entries
+//@ func (y CheckWhen) CheckFieldPreConstraints(r *FieldRequest, hnd *ValueHandle) (bool, error)
+//@   mode int
+//@   property C16
+//@   requires r != nil
+//@   ensures r.Selection != nil && dyn(r.Meta) == meta.HasWhen && whenOf(r.Meta) != nil && result1 == nil ==> result0 == exprHolds(r.Selection, whenOf(r.Meta).expr)
+//@   ensures nodeWrites == old(nodeWrites) && open == old(open)
+//@ func (y CheckWhen) CheckContainerPostConstraints(r ChildRequest, s *Selection) (bool, error)
+//@   mode int
+//@   property C16
+//@   ensures s != nil && dyn(r.Meta) == meta.HasWhen && whenOf(r.Meta) != nil && result1 == nil ==> result0 == exprHolds(s, whenOf(r.Meta).expr)
 //@   ensures nodeWrites == old(nodeWrites) && open == old(open)
 
 //@ func (f xpathFilter) CheckNotifyFilterConstraints(msg *Selection) (bool, error)
